@@ -105,14 +105,15 @@ def make_entry(eid, prog, results, cx, dedupe=True):
         texts.append({"teal": [{k: v for k, v in ins.items() if k != "ln"} for ins in te["teal"]],
                       "R": te["R"], "tag": te["tag"]})
         meta.append({"tags": [te["tag"]], "problems": te["problems"], "text": r["teal"], "st": r["st"]})
-    entry = {"id": eid, "recipe": {"main": prog["main"], "rt": prog.get("rt", [])}, "cx": cx, "texts": texts}
+    entry = {"id": eid, "recipe": {"main": prog["main"], "rt": prog.get("rt", [])}, "cx": cx, "texts": texts,
+             "vars": prog.get("vars", [])}
     return entry, meta
 
 
 # ---------------------------------------------------------------------------------------------
 # TLC validation of batches
 def run_refine(entries, name, module="Refine", max_steps=3000, chunks=None, workers_per=4, timeout=1700,
-               extra_constants=""):
+               extra_constants="", base=256, wdigits=8):
     """Runs spec/<module>.tla over the entries (split into chunks, several JVMs).  Returns
     (verdicts: dict (entry index, cid, k) -> fields, results: [TLCResult], errors: [str])."""
     if not entries:
@@ -122,8 +123,8 @@ def run_refine(entries, name, module="Refine", max_steps=3000, chunks=None, work
     size = (len(entries) + chunks - 1) // chunks
     parts = [(ci, entries[ci * size:(ci + 1) * size]) for ci in range(chunks) if entries[ci * size:(ci + 1) * size]]
     wd = tlc.workdir("refine_" + name)
-    cfg = ("SPECIFICATION Spec\nCONSTANTS Base = 256\nWD = 8\nMaxSteps = %d\n%sCHECK_DEADLOCK FALSE\n"
-           % (max_steps, extra_constants))
+    cfg = ("SPECIFICATION Spec\nCONSTANTS Base = %d\nWD = %d\nMaxSteps = %d\n%sCHECK_DEADLOCK FALSE\n"
+           % (base, wdigits, max_steps, extra_constants))
 
     def one(part):
         ci, ents = part
@@ -161,7 +162,7 @@ def expected_keys(entries):
     keys = set()
     for idx, e in enumerate(entries):
         n = batch.nctx(e["cx"], batch.DOMSIZES)
-        for c in range(n):
+        for c in (e["cids"] if e.get("cids") else range(n)):
             for k in range(1, len(e["texts"]) + 1):
                 keys.add((idx, c, k))
     return keys
